@@ -215,7 +215,7 @@ Theorem C05_13_candidate_order_irrelevant :
 Proof. exact open_cands_perm. Qed.
 Print Assumptions C05_13_candidate_order_irrelevant.
 
-(* WHAT THE CODE STILL DOES WITH UNPROTECTED RECORDS (known findings F42/F43): on an established connection the
+(* WHAT THE CODE STILL DOES WITH UNPROTECTED RECORDS (known finding F42): on an established connection the
    15-byte datagram 15 fefd 0000 00000000102a 0002 0250 (alert, epoch 0, fatal) closes the connection, whatever
    the keys are. *)
 Theorem C05_13_unprotected_alert_closes :
@@ -241,13 +241,40 @@ Theorem C05_13_acts_only_on_sealed_refuted :
 Proof. exact acts_only_on_sealed_refuted. Qed.
 Print Assumptions C05_13_acts_only_on_sealed_refuted.
 
-(* An unprotected handshake record (here a KeyUpdate with message_seq 7) is still handed to the handshake layer. *)
-Theorem C05_13_unprotected_handshake_accepted :
+(* Once the handshake is complete only authentic handshake records of a protected epoch (KeyUpdate, NewSessionTicket,
+   retransmitted final flights) reach the handshake layer; unprotected ones are discarded before reassembly (the
+   repaired defect F43: a forged cleartext KeyUpdate used to be answered with a fatal alert). *)
+Theorem C05_13_hs_only_authentic_established :
+  forall (snmask : N -> bytes -> N) (aopen : N -> N -> bytes -> bytes -> option bytes)
+    (hs_room : bytes -> bool) (W : nat) (lease : bool) (s : rstate) 
+    (b : bytes) (e q : N) (body : bytes),
+  r_estab s = true ->
+  In (OHs e q body) (snd (recv_record snmask aopen hs_room W lease s b)) ->
+  e <> 0 /\ auth_cipher snmask aopen s b = Some (body, 22, q, e).
+Proof. exact hs_only_authentic_established. Qed.
+Print Assumptions C05_13_hs_only_authentic_established.
+
+(* Regression item: the unprotected KeyUpdate record 16fefd0000 0000000010a7 000d 18000001 0007 000000 000001 00 on an
+   established connection: no output, no commit. *)
+Theorem C05_13_unprotected_handshake_inert_example :
+  forall (snmask : N -> bytes -> N) (aopen : N -> N -> bytes -> bytes -> option bytes)
+    (hs_room : bytes -> bool),
+  snd (recv13 snmask aopen hs_room 64 est_state plain_keyupdate) = [] /\
+  r_high (fst (recv13 snmask aopen hs_room 64 est_state plain_keyupdate)) = r_high est_state /\
+  latest
+    (snd
+       (get_win 64 0 (r_wins (fst (recv13 snmask aopen hs_room 64 est_state plain_keyupdate))))) =
+  0.
+Proof. exact unprotected_handshake_inert_example. Qed.
+Print Assumptions C05_13_unprotected_handshake_inert_example.
+
+(* ... while the handshake is still running unprotected handshake records are accepted (they are the handshake). *)
+Theorem C05_13_unprotected_handshake_during_handshake :
   forall (snmask : N -> bytes -> N) (aopen : N -> N -> bytes -> bytes -> option bytes),
-  snd (recv13 snmask aopen (fun _ : bytes => true) 64 est_state plain_keyupdate) =
+  snd (recv13 snmask aopen (fun _ : bytes => true) 64 (rinit [] false false) plain_keyupdate) =
   [OMark 0 4263; OHs 0 4263 [24; 0; 0; 1; 0; 7; 0; 0; 0; 0; 0; 1; 0]].
-Proof. exact unprotected_handshake_accepted. Qed.
-Print Assumptions C05_13_unprotected_handshake_accepted.
+Proof. exact unprotected_handshake_during_handshake. Qed.
+Print Assumptions C05_13_unprotected_handshake_during_handshake.
 
 (* ... while an unprotected ACK has no effect (regression item of the repaired defect). *)
 Theorem C05_13_unprotected_ack_inert_example :
@@ -276,7 +303,7 @@ Proof.
   apply andb_prop in E. destruct E as [He Hq]. apply N.eqb_eq in He, Hq. apply bytes_eqb_eq in Ha, Hc. subst. now left.
 Qed.
 Example C05_13_example :
-  let s := mk_rstate 3 (Some 3) [2] [] [] [] [] false false false in
+  let s := mk_rstate 3 (Some 3) [2] [] [] [] [] false false false true in
   let genuine := [47; 0; 7; 0; 19] ++ repeat 9 19 in
   let forged := [47; 0; 7; 0; 19] ++ repeat 9 18 ++ [8] in
   deliveries (snd (run_ops (fun _ _ => 0) ex_open (fun _ => true) 64 s
